@@ -15,6 +15,7 @@ Known deviations (DESIGN section 4) are spec constants KF_*; only those listed a
 /verif/KNOWN_FINDINGS.txt or (proposed, until the main session decides) /verif/findings/C10.known
 are enabled for the second validation pass."""
 import json, os, re
+from concurrent.futures import ThreadPoolExecutor
 import vp
 import tracecheck
 
@@ -107,32 +108,41 @@ def check(run):
                 break
             if e["op"] not in ("init", "reset"):
                 calls.append(e)
-        tracecheck.replay_and_validate(run, [init + calls], driver="sandbox-replay", driver_args=[],
+        base = ["-base", str(init[0].get("tr", 0))] if init else []
+        tracecheck.replay_and_validate(run, [init + calls], driver="sandbox-replay", driver_args=base,
                                        trace_module="Trace_Sandbox.tla", trace_cfg="Trace_Sandbox.cfg",
                                        consts=rep.get("consts"), kf_consts=kf_consts, kf_desc=kf)
         run.finish()
 
-    # (1) design: exhaustive
-    if os.environ.get("VERIF_C10_SKIP_MC"):      # self-test aid only (mutant loops): the design check does not read /repo
-        run.assumptions.append("MODEL CHECK SKIPPED (VERIF_C10_SKIP_MC)")
-    else:
-        run.tlc_mc("MC_Sandbox.tla", "MC_Sandbox.cfg" if quick else "MC_Sandbox_thorough.cfg", timeout=900)
-        run.tlc_mc("MC_Sandbox.tla", "MC_Sandbox_utxo.cfg", timeout=600)
-
-    # (2)-(4) conformance
     core = {"EdgeBounds": "FALSE", "Limits": "{1, 2, 9}"}
     edge = {"EdgeBounds": "TRUE", "Limits": "{0, 9}"}
     wide = {"N1": 4, "N2": 2, "EdgeBounds": "FALSE", "Limits": "{1, 3, 9}"}
     if quick:
         plans = [(450, 8, core), (250, 6, edge), (100, 8, wide)]
+        mcs = [("MC_Sandbox.cfg", 900), ("MC_Sandbox_utxo.cfg", 600)]
     else:
         plans = [(3000, 10, core), (1500, 8, edge), (1200, 12, wide), (600, 16, dict(core, NU=4))]
+        mcs = [("MC_Sandbox_thorough.cfg", 1500), ("MC_Sandbox.cfg", 900), ("MC_Sandbox_utxo.cfg", 600)]
+    if os.environ.get("VERIF_C10_SKIP_MC"):      # self-test aid only (mutant loops): the design check does not read /repo
+        run.assumptions.append("MODEL CHECK SKIPPED (VERIF_C10_SKIP_MC)")
+        mcs = []
+
+    # (1) design: exhaustive model checks and (2) program generation run side by side (independent TLC processes,
+    # each deterministic for its own seed)
+    def gen(k):
+        num, ops, consts = plans[k]
+        return run.tlc_gen("Gen_Sandbox.tla", "Gen_Sandbox.cfg", num, ops + 3, name="gen%d" % k, seed=run.seed + 7 * k,
+                           consts=dict(consts, MaxOps=ops), timeout=1500)
+    with ThreadPoolExecutor(max_workers=len(plans) + 1) as ex:
+        gens = [ex.submit(gen, k) for k in range(len(plans))]
+        mcf = ex.submit(lambda: [run.tlc_mc("MC_Sandbox.tla", cfg, timeout=to, workers=12) for cfg, to in mcs])
+        behsets = [g.result() for g in gens]
+        mcf.result()
+
+    # (3)-(4) conformance
     allb = []
-    for k, (num, ops, consts) in enumerate(plans):
-        gc = dict(consts, MaxOps=ops)
-        behs = run.tlc_gen("Gen_Sandbox.tla", "Gen_Sandbox.cfg", num, ops + 3, name="gen%d" % k, seed=run.seed + 7 * k,
-                           consts=gc, timeout=1500)
-        vc = {kk: v for kk, v in consts.items() if kk in ("N1", "N2", "NT")}
+    for k, behs in enumerate(behsets):
+        vc = {kk: v for kk, v in plans[k][2].items() if kk in ("N1", "N2", "NT")}
         tracecheck.replay_and_validate(run, behs, driver="sandbox-replay", driver_args=[],
                                        trace_module="Trace_Sandbox.tla", trace_cfg="Trace_Sandbox.cfg", name="t%d" % k,
                                        consts=vc, kf_consts=kf_consts, kf_desc=kf, batch=500)
